@@ -55,3 +55,50 @@ Proof.
     rewrite Hx1, Hx2. destruct (find p (ge_dirs es)); [reflexivity|]. destruct (find p (ge_files es)); reflexivity. }
   rewrite (G _ H1), (G _ H2). reflexivity.
 Qed.
+
+(** * updating one entry of a directory (what [FatIO] does after a write or a truncate: new size, first cluster) *)
+Definition commutes (f:dirent -> dirent) : Prop :=
+  forall x, (entry_ok x -> entry_ok (f x)) /\ d_name (f x) = d_name x /\ canon (f x) = f (canon x).
+Lemma find_map_upd (f:dirent -> dirent) nm : (forall x, d_name (f x) = d_name x) -> forall es,
+  find (fun x => list_eqb (d_name x) nm) (map (fun x => if list_eqb (d_name x) nm then f x else x) es) =
+  option_map f (find (fun x => list_eqb (d_name x) nm) es).
+Proof.
+  intros Hn. induction es as [|x r IH]; [reflexivity|]. cbn [map find]. destruct (list_eqb (d_name x) nm) eqn:E.
+  - rewrite Hn, E. reflexivity.
+  - rewrite E. exact IH.
+Qed.
+Theorem update_entry_then_find s h f s' es0 ch e :
+  dev_ok (s_dev s) -> geom_ok s -> vt (ft s) -> 0 <= s_hint s -> h_parent h <> -1 ->
+  chain s (h_parent h) = (ch, true) -> Forall (inside s) ch -> vol_ok s ->
+  Forall entry_ok es0 -> read_dir s (h_parent h) = Ok (map canon es0) -> commutes f ->
+  find_in_dir s h = Ok e ->
+  update_entry s h f = Ok s' ->
+  find_in_dir s' h = Ok (f e) /\
+  read_dir s' (h_parent h) = Ok (map (fun x => if list_eqb (d_name x) (h_name h) then f x else x) (map canon es0)).
+Proof.
+  intros Hd G Hv Hh Hc Hch Hin Hvol Hes Hrd Hf Hfind Hu.
+  unfold update_entry in Hu. rewrite Hrd in Hu. cbn [bind] in Hu.
+  set (g := fun x => if list_eqb (d_name x) (h_name h) then f x else x) in *.
+  assert (Hcomm : map g (map canon es0) = map canon (map g es0)).
+  { rewrite !map_map. apply map_ext. intros x. unfold g. destruct (Hf x) as (_ & Hn & Hcx).
+    destruct (canon_name x) as [Hcn _]. rewrite Hcn. destruct (list_eqb (d_name x) (h_name h)); [symmetry; exact Hcx|reflexivity]. }
+  assert (Hok : Forall entry_ok (map g es0)).
+  { apply Forall_forall. intros y Hy. apply in_map_iff in Hy. destruct Hy as (x & <- & Hx). rewrite Forall_forall in Hes. unfold g.
+    destruct (list_eqb (d_name x) (h_name h)); [apply (Hf x); apply Hes; exact Hx|apply Hes; exact Hx]. }
+  rewrite Hcomm in Hu. rewrite (write_dir_ext s (h_parent h) (map canon (map g es0)) (map g es0)) in Hu by (apply ser_dir_canon; exact Hok).
+  pose proof (write_dir_read_dir s (h_parent h) (map g es0) s' ch Hd G Hv Hh Hok Hc Hch Hin Hvol Hu) as Hr.
+  rewrite <- Hcomm in Hr. split; [|exact Hr].
+  unfold find_in_dir in *. rewrite Hr. rewrite Hrd in Hfind. cbn [bind] in *.
+  unfold g. rewrite find_map_upd by (intros x; apply (Hf x)).
+  destruct (find _ (map canon es0)) as [e1|]; [|discriminate]. inversion Hfind; subst. reflexivity.
+Qed.
+(** the updates [FatIO] makes commute with the reader's normal form *)
+Lemma set_size_commutes n : 0 <= n < 4294967296 -> commutes (fun x => set_size x n).
+Proof.
+  intros Hn x. split; [|split].
+  - destruct x as [nm at_ nt te ct cd ad hi wt wd lo sz lfn]. unfold entry_ok, sentry_ok, short_ok, set_size.
+    cbn [d_name d_attr d_ntres d_tenth d_crttime d_crtdate d_accdate d_clushi d_wrttime d_wrtdate d_cluslo d_size d_lfn].
+    intros ((Hs & H1 & H2 & H3) & Hl). destruct Hs as (A & B & C & D & E & F & G0 & H0 & I). repeat split; try assumption; try lia.
+  - destruct x; reflexivity.
+  - unfold canon. destruct x as [nm at_ nt te ct cd ad hi wt wd lo sz lfn]. destruct lfn; reflexivity.
+Qed.
